@@ -90,8 +90,11 @@ def scratch_root() -> str:
     global _SCRATCH
     if _SCRATCH is None:
         base = "/dev/shm" if os.path.isdir("/dev/shm") and os.access("/dev/shm", os.W_OK) else None
+        _reap_stale_scratch(base or tempfile.gettempdir())
         _SCRATCH = tempfile.mkdtemp(prefix="nslsim-", dir=base)
         owner = os.getpid()
+        with open(os.path.join(_SCRATCH, "owner.pid"), "w") as f:
+            f.write(str(owner))
         import atexit
 
         def _cleanup():
@@ -100,6 +103,25 @@ def scratch_root() -> str:
 
         atexit.register(_cleanup)
     return _SCRATCH
+
+
+def _reap_stale_scratch(base):
+    """Remove scratch directories whose owning check process no longer exists (a
+    killed run cannot clean up after itself)."""
+    try:
+        names = [n for n in os.listdir(base) if n.startswith("nslsim-")]
+    except OSError:
+        return
+    for n in names:
+        d = os.path.join(base, n)
+        try:
+            with open(os.path.join(d, "owner.pid")) as f:
+                pid = int(f.read().strip())
+            os.kill(pid, 0)
+        except (ProcessLookupError, ValueError):
+            shutil.rmtree(d, ignore_errors=True)
+        except (OSError, PermissionError):
+            continue
 
 
 def cleanup_scratch():
